@@ -2,7 +2,7 @@
    [vm_compute] evaluation inside coqc run exactly the same function.
    A case is a list of numbers; the first is the case kind. *)
 From Coq Require Import NArith List Bool.
-From PDB Require Import Gen.Consts Model.IndexPage Model.Pipeline Model.Meta Model.Migrate Model.ValueTable Model.MultiTree Model.BTreeIter Model.BTreeCheck.
+From PDB Require Import Gen.Consts Model.IndexPage Model.Pipeline Model.Meta Model.Migrate Model.ValueTable Model.MultiTree Model.BTreeIter Model.BTreeCheck Model.Wal Model.WalCodec.
 Import ListNotations.
 Open Scope N_scope.
 
@@ -115,7 +115,7 @@ Definition run_hist (l : list N) : list N :=
   | ncols :: rest =>
       let '(cfg, rest1) := take_cfg (N.to_nat ncols) rest in
       match rest1 with
-      | nkeys :: nsteps :: steps => run_steps (N.to_nat nsteps) cfg (N.to_nat nkeys) init None steps
+      | nkeys :: nsteps :: steps => run_steps (N.to_nat nsteps) cfg (N.to_nat nkeys) Pipeline.init None steps
       | _ => err_marker
       end
   | _ => err_marker
@@ -442,12 +442,49 @@ Definition run_c04_tree (l : list N) : list N :=
   | _ => err_marker
   end.
 
+(* ---- kind 12: an observed event trace handed to the executable log-discipline protocol.
+   n ev* ; ev: 1 len = append of a record with len stores | 2 = log synced | 3 = store | 4 = record done |
+   5 = all tables flushed | 6 n = log truncated up to record n.  Output: 1 nrecs synced enacted truncated, or 0 *)
+Fixpoint parse_wevs (fuel : nat) (l : list N) : list wev :=
+  match fuel with
+  | O => []
+  | S f =>
+      match l with
+      | 1 :: len :: r => EAppend {| ws := map (fun i => (N.of_nat i, 0)) (seq 0 (N.to_nat len)) |} :: parse_wevs f r
+      | 2 :: r => ESyncLog :: parse_wevs f r
+      | 3 :: r => EStore :: parse_wevs f r
+      | 4 :: r => EFinish :: parse_wevs f r
+      | 5 :: r => EFlush :: parse_wevs f r
+      | 6 :: n :: r => ETruncate (N.to_nat n) :: parse_wevs f r
+      | _ => []
+      end
+  end.
+Definition run_c12 (l : list N) : list N :=
+  match l with
+  | n :: rest =>
+      match wrun (parse_wevs (N.to_nat n) rest) (Wal.init (fun _ => 0)) with
+      | Some w => [1; N.of_nat (length (recs w)); N.of_nat (Wal.s w); N.of_nat (st w); N.of_nat (t w)]
+      | None => [0]
+      end
+  | _ => err_marker
+  end.
+
+(* ---- kind 13: log bytes. 13 1 bytes.. -> crc32 ; 13 2 ncols nfiles (len bytes..)* -> ids the replay applies ---- *)
+Definition run_c13 (l : list N) : list N :=
+  match l with
+  | 1 :: bs => [crc32 bs]
+  | 2 :: ncols :: nfiles :: rest => replay_ids ncols (take_names (N.to_nat nfiles) rest)
+  | _ => err_marker
+  end.
+
 Definition dispatch (l : list N) : list N :=
   match l with
   | 19 :: rest => run_c19 rest
   | 1 :: rest => run_hist rest
   | 17 :: rest => run_c17 rest
   | 9 :: rest => run_c09 rest
+  | 13 :: rest => run_c13 rest
+  | 12 :: rest => run_c12 rest
   | 4 :: rest => run_c04_tree rest
   | 10 :: rest => run_c10 rest
   | 110 :: rest => run_c10_debug rest
